@@ -146,7 +146,9 @@ template <class M> void run_one(const Bytes &file, bool check, bool bu, bool non
   ro.bottom_up_incidences = bu;
   IO::ReadResult r;
   try { r = IO::ovmb_read(ss, m, ro); }
-  catch (std::exception &) { ++fz::C().exceptions; return; }  // allowed: a declared size that cannot be allocated
+  catch (std::bad_alloc &) { ++fz::C().exceptions; return; }     // allowed: a declared size that cannot be allocated
+  catch (std::length_error &) { ++fz::C().exceptions; return; }  // (vector::reserve / resize beyond max_size)
+  catch (std::exception &e) { fz::violation((std::string("ovmb_read let an exception escape that is not an allocation failure: ") + e.what()).c_str()); }
   if (r == IO::ReadResult::Ok) {
     ++fz::C().success;
     if (fz::C().sample_ok.empty() || (nontrivial && fz::C().success % 997 == 0)) fz::C().sample_ok = fz::hexhead(file.data(), file.size());
